@@ -11,6 +11,10 @@ func New(seed uint64, stream uint64) *R {
 	return r
 }
 
+// Fork returns an independent generator derived from r's current state and a tag, without advancing r: a
+// dimension added to a generator later draws from a fork, so that the inputs a seed produced before stay the same.
+func (r *R) Fork(tag uint64) *R { return New(r.s, tag) }
+
 // U64 returns the next 64 random bits.
 func (r *R) U64() uint64 {
 	r.s += 0x9E3779B97F4A7C15
